@@ -46,6 +46,14 @@ func vRunCommon(r *vlib.Run, c *advCase, res *advResult) bool {
 	}
 	if res.leak {
 		r.Count("scenarios_with_leaked_goroutines", 1)
+		if r.Prop == "C08" || r.Prop == "C10" {
+			// Run has returned and ten more virtual seconds have passed (longer than
+			// any wait the task makes: 3 s spacing, 500 ms delay, 200 ms back-off),
+			// yet goroutines it started are still parked: the task has not stopped
+			// every activity together.
+			r.Violation(c.ID, "goroutine-left-behind", "goroutines started by the task are still blocked 10 s (virtual) after Run returned", advDetail(c, res.ev))
+			return false
+		}
 	}
 	r.Count("events_observed", len(res.ev))
 	r.Distinct("trace_signatures", vfake.Signature(vOnly(res.ev, "write_begin", "read_deliver", "read_error", "cancel", "dial", "run_return", "link_event")))
